@@ -87,9 +87,27 @@ namespace PL
       fprintf( stderr, "FATAL: action family %d not compiled into this unit\n", c.fam );
       abort();
    }
+   // one leading dummy state in front of the control (which removes it again): void actions only
+   template< template< typename... > class Act, template< typename... > class Ctl >
+   Real run_lead( const Cfg& c, In& in, long fuel_limit )
+   {
+      int lead = 0;
+      if( c.A ) {
+         if( c.M ) return run_real< Act, Ctl, p::apply_mode::action, p::rewind_mode::required >( in, fuel_limit, lead );
+         return run_real< Act, Ctl, p::apply_mode::action, p::rewind_mode::optional >( in, fuel_limit, lead );
+      }
+      if( c.M ) return run_real< Act, Ctl, p::apply_mode::nothing, p::rewind_mode::required >( in, fuel_limit, lead );
+      return run_real< Act, Ctl, p::apply_mode::nothing, p::rewind_mode::optional >( in, fuel_limit, lead );
+   }
    inline Real run_impl( const Cfg& c, In& in, long fuel_limit )
    {
       switch( c.ctl ) {
+         case 8:
+            if constexpr( ( ( VERIF_CTLS ) & 256 ) != 0 ) return c.fam == 0 ? run_lead< p::nothing, rfs_mon >( c, in, fuel_limit ) : run_lead< act_apply, rfs_mon >( c, in, fuel_limit );
+            break;
+         case 9:
+            if constexpr( ( ( VERIF_CTLS ) & 512 ) != 0 ) return c.fam == 0 ? run_lead< p::nothing, rfs_errA >( c, in, fuel_limit ) : run_lead< act_apply, rfs_errA >( c, in, fuel_limit );
+            break;
          case 0:
             if constexpr( ( ( VERIF_CTLS ) & 1 ) != 0 ) return run_fam< mon >( c, in, fuel_limit );
             break;
@@ -130,6 +148,7 @@ namespace PL
    {
       if( who == R::WHO_RAISE_MSG ) return "rmsg";
       if( who == 1 && g_errors == 1 ) return "custom message for n1";
+      if( who == 1 && g_errors == 2 ) return "message B for n1";
       if( who == R::WHO_LIMIT_DEPTH ) return "maximum parser rule nesting depth exceeded";
       if( who == R::WHO_LIMIT_BYTES ) return "maximum allowed rule consumption reached";
       if( who == R::WHO_CHECK_BYTES ) return "maximum allowed rule consumption exceeded";
